@@ -7,6 +7,7 @@ import Flumine.Dispatch
 import Flumine.Mw
 import Flumine.Lemmas.OrderLemmas
 import Flumine.Props.C03
+import Flumine.Lemmas.Inv
 namespace Flumine.C13
 open Flumine Flumine.Dispatch
 
@@ -579,11 +580,188 @@ theorem registration_order_irrelevant (w : World) (mid A B : Nat) (hAB : A ≠ B
       rw [hid]; exact ⟨ho', hs'⟩
     exact (matchOrders_agree S mid false _ hLA w' w hag).orders oid hSoid
 
+
+/-! #### the whole isolated loop: strategy A's outcome is independent of every other strategy -/
+
+/-- v is the world w after strategies other than A were matched: same market table, clients and clock;
+    every order of w is still there with its strategy tag; A's orders are exactly as in w -/
+structure Untouched (mid A : Nat) (w v : World) : Prop where
+  markets : v.markets = w.markets
+  clients : v.clients = w.clients
+  clock : v.clock = w.clock
+  has : ∀ id, HasOrder w id → HasOrder v id
+  tag : ∀ id, HasOrder w id → (v.order! id).strategy = (w.order! id).strategy
+  same : ∀ id, id ∈ (w.market! mid).blotter → (w.order! id).strategy = A → v.order! id = w.order! id
+
+theorem Untouched.refl (mid A : Nat) (w : World) : Untouched mid A w w :=
+  ⟨rfl, rfl, rfl, fun _ h => h, fun _ _ => rfl, fun _ _ _ => rfl⟩
+
+theorem untouched_step (mid A B : Nat) (hAB : A ≠ B) (w v : World)
+    (hb : ∀ oid ∈ (w.market! mid).blotter, HasOrder w oid) (h : Untouched mid A w v) :
+    Untouched mid A w (matchStrategy mid v B) := by
+  have hmk : v.market! mid = w.market! mid := market!_congr v w h.markets mid
+  -- B's live orders in v
+  have hLB : ∀ x ∈ sortOrders (v.strategyLive mid B), HasOrder v x.id ∧
+      ¬ (x.id ∈ (w.market! mid).blotter ∧ (w.order! x.id).strategy = A) := by
+    intro x hx
+    obtain ⟨oid, ho, rfl, hs⟩ := strategyLive_spec v mid B x (mem_sortOrders _ x hx)
+    rw [hmk] at ho
+    have hv := h.has oid (hb oid ho)
+    have hid := order!_id v oid hv
+    rw [hid]
+    refine ⟨hv, fun hS => ?_⟩
+    have := h.tag oid (hb oid ho)
+    rw [hs, hS.2] at this
+    exact hAB this.symm
+  unfold matchStrategy
+  simp only
+  split
+  · exact h
+  · obtain ⟨g1, g2, g3, g4⟩ := fold_frame mid false (sortOrders (v.strategyLive mid B)) v
+      ((v.market! mid).analytics.map fun a => (a.sel, a.hc, a.traded)) (fun x hx => (hLB x hx).1)
+    refine ⟨(matchOrders_keeps_markets v mid _ false).trans h.markets, g3.trans h.clients, g4.trans h.clock, ?_, ?_, ?_⟩
+    · intro id hid; exact g2 id (h.has id hid)
+    · intro id hid
+      rw [matchOrders_strategy v mid _ false (fun x hx => (hLB x hx).1) id (h.has id hid)]
+      exact h.tag id hid
+    · intro id hin hsA
+      have : (v.matchOrders mid (sortOrders (v.strategyLive mid B)) false).order! id = v.order! id :=
+        g1 id (fun o ho e => (hLB o ho).2 (e ▸ ⟨hin, hsA⟩))
+      rw [this]; exact h.same id hin hsA
+
+theorem untouched_fold (mid A : Nat) (w : World) (hb : ∀ oid ∈ (w.market! mid).blotter, HasOrder w oid)
+    (l : List Nat) (hl : ∀ B ∈ l, A ≠ B) (v : World) (h : Untouched mid A w v) :
+    Untouched mid A w (l.foldl (matchStrategy mid) v) := by
+  induction l generalizing v with
+  | nil => exact h
+  | cons B bs ih =>
+    rw [List.foldl_cons]
+    exact ih (fun x hx => hl x (List.mem_cons_of_mem _ hx)) _ (untouched_step mid A B (hl B List.mem_cons_self) w v hb h)
+
+/-- A's own step gives the same orders of A whether or not other strategies were matched before -/
+theorem own_step_agrees (mid A : Nat) (w v : World) (hb : ∀ oid ∈ (w.market! mid).blotter, HasOrder w oid)
+    (h : Untouched mid A w v) :
+    ∀ oid ∈ (w.market! mid).blotter, (w.order! oid).strategy = A →
+      (matchStrategy mid v A).order! oid = (matchStrategy mid w A).order! oid := by
+  let S : Nat → Prop := fun id => id ∈ (w.market! mid).blotter ∧ (w.order! id).strategy = A
+  have hasS : ∀ id, S id → HasOrder w id := fun id hs => hb id hs.1
+  have hag : Agree S v w := ⟨fun id hs => h.same id hs.1 hs.2, fun id hs => h.has id (hasS id hs), hasS, h.markets, h.clients, h.clock⟩
+  have hlive : v.strategyLive mid A = w.strategyLive mid A := by
+    unfold strategyLive
+    rw [market!_congr v w h.markets mid]
+    have : ∀ (l : List Nat), (∀ oid ∈ l, oid ∈ (w.market! mid).blotter) →
+        (l.map v.order!).filter (fun o => o.strategy = A ∧ isMwLive o) = (l.map w.order!).filter (fun o => o.strategy = A ∧ isMwLive o) := by
+      intro l
+      induction l with
+      | nil => intro _; rfl
+      | cons oid os ih =>
+        intro hl
+        have hin := hl oid List.mem_cons_self
+        have iht := ih (fun x hx => hl x (List.mem_cons_of_mem _ hx))
+        simp only [List.map_cons, List.filter_cons]
+        by_cases hs : (w.order! oid).strategy = A
+        · rw [h.same oid hin hs, iht]
+        · have hs' : (v.order! oid).strategy ≠ A := by rw [h.tag oid (hb oid hin)]; exact hs
+          simp only [hs, hs', false_and, decide_false, Bool.false_eq_true, if_false]
+          exact iht
+    exact this _ (fun _ hx => hx)
+  intro oid hin hsA
+  unfold matchStrategy
+  simp only
+  rw [hlive]
+  by_cases he : (w.strategyLive mid A).isEmpty = true
+  · rw [if_pos he, if_pos he]; exact h.same oid hin hsA
+  · rw [if_neg he, if_neg he]
+    have hLA : ∀ o ∈ sortOrders (w.strategyLive mid A), S o.id := by
+      intro x hx
+      obtain ⟨oid', ho', rfl, hs'⟩ := strategyLive_spec w mid A x (mem_sortOrders _ x hx)
+      have hid := order!_id w oid' (hb oid' ho')
+      rw [hid]; exact ⟨ho', hs'⟩
+    exact (matchOrders_agree S mid false _ hLA v w hag).orders oid ⟨hin, hsA⟩
+
+/-- what A's own step leaves in place: the market table, every order (with its tag) -/
+theorem own_step_base (mid A : Nat) (w : World) (hb : ∀ oid ∈ (w.market! mid).blotter, HasOrder w oid) :
+    (matchStrategy mid w A).markets = w.markets ∧ (∀ id, HasOrder w id → HasOrder (matchStrategy mid w A) id) ∧
+    (∀ id, HasOrder w id → ((matchStrategy mid w A).order! id).strategy = (w.order! id).strategy) := by
+  have hLA : ∀ x ∈ sortOrders (w.strategyLive mid A), HasOrder w x.id := by
+    intro x hx
+    obtain ⟨oid, ho, rfl, _⟩ := strategyLive_spec w mid A x (mem_sortOrders _ x hx)
+    rw [order!_id w oid (hb oid ho)]; exact hb oid ho
+  unfold matchStrategy
+  simp only
+  split
+  · exact ⟨rfl, fun _ hh => hh, fun _ _ => rfl⟩
+  · obtain ⟨_, g2, _, _⟩ := fold_frame mid false (sortOrders (w.strategyLive mid A)) w
+      ((w.market! mid).analytics.map fun a => (a.sel, a.hc, a.traded)) hLA
+    exact ⟨matchOrders_keeps_markets w mid _ false, g2, fun id hid => matchOrders_strategy w mid _ false hLA id hid⟩
+
+/-- C13 (isolation of the matching loop): with strategy isolation on, the orders of strategy A after
+    the whole per-strategy loop - any number of other strategies before and after it, in any order -
+    are exactly what matching A alone produces -/
+theorem isolated_loop (mid A : Nat) (w : World) (before after_ : List Nat)
+    (hb : ∀ oid ∈ (w.market! mid).blotter, HasOrder w oid)
+    (h1 : ∀ B ∈ before, A ≠ B) (h2 : ∀ B ∈ after_, A ≠ B) :
+    ∀ oid ∈ (w.market! mid).blotter, (w.order! oid).strategy = A →
+      ((before ++ A :: after_).foldl (matchStrategy mid) w).order! oid = (matchStrategy mid w A).order! oid := by
+  intro oid hin hsA
+  rw [List.foldl_append, List.foldl_cons]
+  -- the strategies before A
+  have hv := untouched_fold mid A w hb before h1 w (Untouched.refl mid A w)
+  generalize before.foldl (matchStrategy mid) w = v at hv
+  have hown := own_step_agrees mid A w v hb hv oid hin hsA
+  -- A's own step, then the strategies after A: base world u
+  have hbv : ∀ oid ∈ (v.market! mid).blotter, HasOrder v oid := by
+    intro x hx; rw [market!_congr v w hv.markets mid] at hx; exact hv.has x (hb x hx)
+  obtain ⟨um, uh, ut⟩ := own_step_base mid A v hbv
+  generalize hu : matchStrategy mid v A = u at hown um uh ut
+  have hbu : ∀ oid ∈ (u.market! mid).blotter, HasOrder u oid := by
+    intro x hx; rw [market!_congr u v um mid] at hx; exact uh x (hbv x hx)
+  have hfin := untouched_fold mid A u hbu after_ h2 u (Untouched.refl mid A u)
+  have hin_u : oid ∈ (u.market! mid).blotter := by
+    rw [market!_congr u v um mid, market!_congr v w hv.markets mid]; exact hin
+  have htag_u : (u.order! oid).strategy = A := by
+    rw [ut oid (hv.has oid (hb oid hin)), hv.tag oid (hb oid hin)]; exact hsA
+  rw [hfin.same oid hin_u htag_u]
+  exact hown
+
+
+/-- `isolated_loop` in every reachable state: its well-formedness hypothesis is an invariant of whole
+    runs (`Inv.inv_reachable`), so the statement holds unconditionally after any history -/
+theorem isolated_loop_reachable (cfg : Config) (cl : List Client) (ss : List Strategy)
+    (us : List (Nat × Book × (Nat → List Action))) (mid A : Nat) (before after_ : List Nat)
+    (h1 : ∀ B ∈ before, A ≠ B) (h2 : ∀ B ∈ after_, A ≠ B) :
+    ∀ oid ∈ ((Inv.runUpdates { cfg := cfg, clients := cl, strategies := ss } us).market! mid).blotter,
+      ((Inv.runUpdates { cfg := cfg, clients := cl, strategies := ss } us).order! oid).strategy = A →
+      ((before ++ A :: after_).foldl (matchStrategy mid) (Inv.runUpdates { cfg := cfg, clients := cl, strategies := ss } us)).order! oid =
+        (matchStrategy mid (Inv.runUpdates { cfg := cfg, clients := cl, strategies := ss } us) A).order! oid :=
+  isolated_loop mid A _ before after_ ((Inv.inv_reachable cfg cl ss us).blotter_hasOrder mid) h1 h2
+
 /-! ### non-vacuity -/
 
 example : processBook (fun c => if c = ⟨.strategy 0, .check⟩ then .raised else .returned true) 2 true false
     [⟨0, true, true⟩, ⟨1, true, false⟩] =
     [⟨.middleware 0, .mw⟩, ⟨.middleware 1, .mw⟩, ⟨.strategy 0, .orders⟩, ⟨.strategy 0, .check⟩, ⟨.strategy 1, .check⟩, ⟨.strategy 1, .book⟩] := by
   decide +kernel
+
+
+/-- two strategies with one resting order each on the same selection: the loop matches both, and the
+    outcome for strategy 0 is that of matching strategy 0 alone (the hypotheses of `isolated_loop` hold) -/
+def isoOrder (id strat : Nat) : Order :=
+  { id := id, trade := id, strategy := strat, market := 1, sel := 1, status := some .executable, log := [.pending, .executable],
+    betId := some (7 + id), sim := { side := .back, kind := .limit, price := 2, size := 10 } }
+def isoWorld : World :=
+  { orders := [isoOrder 0 0, isoOrder 1 1],
+    trades := [{ id := 0, strategy := 0, market := 1, sel := 1, orders := [0] }, { id := 1, strategy := 1, market := 1, sel := 1, orders := [1] }],
+    markets := [{ id := 1, blotter := [0, 1], live := [0, 1], hasAnalytics := true, analytics := [{ sel := 1, hc := 0, traded := [(2, 8)] }],
+                  book := some { runners := [{ sel := 1, atb := [⟨3, 4⟩], atl := [⟨4, 4⟩] }] } }] }
+
+example : ∀ oid ∈ (isoWorld.market! 1).blotter, HasOrder isoWorld oid := by
+  intro oid h
+  have : oid = 0 ∨ oid = 1 := by simpa [isoWorld, World.market!, World.market?] using h
+  rcases this with rfl | rfl
+  · exact ⟨isoOrder 0 0, rfl⟩
+  · exact ⟨isoOrder 1 1, rfl⟩
+example : (([1, 0].foldl (matchStrategy 1) isoWorld).order! 0).sim.matched = [⟨0, 2, 4⟩] := by decide +kernel
+example : ((matchStrategy 1 isoWorld 0).order! 0).sim.matched = [⟨0, 2, 4⟩] := by decide +kernel
 
 end Flumine.C13
